@@ -9,6 +9,7 @@ mod m_conc;
 mod m_drain;
 mod m_diff;
 mod m_e2e;
+mod m_full;
 mod m_hand;
 mod m_lin;
 mod m_obs;
@@ -35,6 +36,7 @@ fn main() {
         "aobs" => m_aobs::run_line,
         "e2e" => m_e2e::run_line,
         "hand" => m_hand::run_line,
+        "full" => m_full::run_line,
         "bcast" => m_bcast::run_line,
         #[cfg(eyeball_verif)]
         "conc" => m_conc::run_line,
